@@ -4,8 +4,7 @@
 //! and the visible value names (vis).  Output: ndjson mismatch lines tagged with "prop".
 use ide::{Analysis, FileId, FilePos, GotoDefinitionResult};
 use serde_json::{json, Value};
-use std::io::{BufRead, Write};
-use std::sync::atomic::{AtomicUsize, Ordering};
+use std::io::Write;
 use std::sync::{Arc, Mutex};
 use verif_harness::programs::{self, Program, Tok, LIB_NAME, LIB_TEXT};
 use verif_harness::util::{catch, quiet_panics, Rng};
@@ -124,28 +123,20 @@ fn main() {
     let hl_out = arg("--hl-out");
     let threads: usize = arg("--threads").and_then(|s| s.parse().ok()).unwrap_or(16);
     let seed: u64 = std::env::var("VERIF_SEED").ok().and_then(|s| s.parse().ok()).unwrap_or(1);
-    let cases: Vec<Value> = std::io::stdin().lock().lines().filter_map(|l| {
-        let l = l.unwrap();
-        if l.trim().is_empty() { None } else { Some(serde_json::from_str(&l).expect("case json")) }
-    }).collect();
-    let cases = Arc::new(cases);
-    let next = Arc::new(AtomicUsize::new(0));
-    let results = Arc::new(Mutex::new(Vec::<Value>::new()));
-    let tables = Arc::new(Mutex::new(Vec::<Value>::new()));
+    let cases = verif_harness::util::CaseStream::stdin();
+    let results = verif_harness::util::Results::new(3);
+    let tables = Arc::new(Mutex::new(tables_out.as_ref().map(|p| std::io::BufWriter::new(std::fs::File::create(p).unwrap()))));
     let range_recs = Arc::new(Mutex::new(std::collections::BTreeSet::<String>::new()));
     let hl_recs = Arc::new(Mutex::new(Vec::<Value>::new()));
     let want_hl = hl_out.is_some();
     let stats = Arc::new(Mutex::new((0u64, 0u64, 0u64, Vec::<Value>::new()))); // programs, queries, shadowing programs, samples
     let mut hs = vec![];
     for _ in 0..threads {
-        let (cases, next, results, tables, range_recs, stats, hl_recs) = (cases.clone(), next.clone(), results.clone(), tables.clone(), range_recs.clone(), stats.clone(), hl_recs.clone());
+        let (cases, results, tables, range_recs, stats, hl_recs) = (cases.clone(), results.clone(), tables.clone(), range_recs.clone(), stats.clone(), hl_recs.clone());
         let want_tables = tables_out.is_some();
         hs.push(std::thread::Builder::new().stack_size(32 << 20).spawn(move || loop {
-            let ci = next.fetch_add(1, Ordering::Relaxed);
-            if ci >= cases.len() {
-                break;
-            }
-            let case = &cases[ci];
+            let Some((ci, case_v)) = cases.next() else { break };
+            let case = &case_v;
             let mut rng = Rng::new(seed ^ (ci as u64).wrapping_mul(7919));
             let prog = programs::render(case, &mut rng, case["plain"].as_bool().unwrap_or(ci % 3 == 0));
             let mut local: Vec<Value> = vec![];
@@ -371,7 +362,7 @@ fn main() {
                 }
                 drop(rr);
                 if want_tables {
-                    tables.lock().unwrap().push(json!({"prog": ci, "text": prog.text, "occ": occ}));
+                    if let Some(f) = tables.lock().unwrap().as_mut() { writeln!(f, "{}", json!({"prog": ci, "text": prog.text, "occ": occ})).unwrap(); }
                 }
             });
             if let Err(p) = r {
@@ -395,7 +386,7 @@ fn main() {
                 }
             }
             drop(st);
-            results.lock().unwrap().extend(local);
+            results.extend(local);
         }).unwrap());
     }
     for h in hs {
@@ -403,21 +394,8 @@ fn main() {
     }
     let so = std::io::stdout();
     let mut so = so.lock();
-    let res = results.lock().unwrap();
-    let mut per_prop: std::collections::BTreeMap<String, usize> = Default::default();
-    for r in res.iter() {
-        let c = per_prop.entry(format!("{}|{}", r["prop"], r["features"])).or_default();
-        *c += 1;
-        if *c <= 3 {
-            writeln!(so, "{r}").unwrap();
-        }
-    }
-    if let Some(p) = tables_out {
-        let mut f = std::io::BufWriter::new(std::fs::File::create(p).unwrap());
-        for t in tables.lock().unwrap().iter() {
-            writeln!(f, "{t}").unwrap();
-        }
-    }
+    let (counts, _) = results.emit(&mut so);
+    if let Some(f) = tables.lock().unwrap().as_mut() { f.flush().unwrap(); }
     if let Some(p) = hl_out {
         let mut f = std::io::BufWriter::new(std::fs::File::create(p).unwrap());
         for t in hl_recs.lock().unwrap().iter() {
@@ -431,7 +409,6 @@ fn main() {
         }
     }
     let st = stats.lock().unwrap();
-    let counts: Vec<Value> = per_prop.iter().map(|(k, v)| json!([k, v])).collect();
     writeln!(so, "{}", json!({"kind": "summary", "programs": st.0, "queries": st.1, "shadowing_programs": st.2, "samples": st.3,
         "mismatch_classes": counts, "ranges": range_recs.lock().unwrap().len()})).unwrap();
 }
